@@ -14,8 +14,13 @@ THEOREMS = [
     "Mpc.C05_stream_circuit",
     "Mpc.C05_stream_program",
     "Mpc.C05_stream_decode",
+    "Mpc.C05_stream_session",
     "Mpc.C05_stream_concrete",
     "Mpc.C05_gc_safe",
+    "Mpc.C05_gcInsert_safe",
+    "Mpc.C05_gc_safe_reordered",
+    "Mpc.C05_defineBeforeUse_id",
+    "Mpc.C05_old_use_before_def_witness",
     "Mpc.C05_walloc_remove_exact",
     "Mpc.C05_walloc_lookup_exact",
     "Mpc.C05_const_pad_partial",
@@ -33,7 +38,6 @@ THEOREMS = [
 # opcode sets the models assume (Model/Gc.lean: Op.gcAlias, Op.rewires)
 EXPECT_GC_ALIAS = ["Amov", "Concat", "Lshift", "Mov", "Rshift", "Slice", "Smov", "Srshift"]
 EXPECT_STREAM_CASES = ["Amov", "Circ", "Concat", "GC", "Lshift", "Mov", "Ret", "Rshift", "Slice", "Smov", "Srshift"]
-EXPECT_FLAGS = ["0b10000000", "0b01000000", "0b00100000", "0b00010000"]
 
 
 def case_labels(body, switch_re):
@@ -60,49 +64,89 @@ def case_labels(body, switch_re):
     return sorted(labels)
 
 
+def resolve_int(text, token):
+    """Value of an integer literal or of a named constant declared in `text`
+    (`name = 123`, `name byte = 0b...`, `const name = 0x..`)."""
+    token = token.strip()
+    try:
+        return int(token, 0)
+    except ValueError:
+        pass
+    m = re.search(r"\b" + re.escape(token) + r"\b(?:\s+[A-Za-z_][\w.]*)?\s*=\s*(0[bBxXoO]?[0-9a-fA-F_]+|\d+)", text)
+    if m:
+        try:
+            return int(m.group(1), 0)
+        except ValueError:
+            return None
+    return None
+
+
 def facts(ctx):
-    gc = vlib.go_func_body("compiler/ssa/program.go", r"\(prog \*Program\) GC\(")
-    m = re.search(r"case\s+([A-Za-z, ]+):\s*\n\s*// Output is an alias", gc or "")
-    got = sorted(x.strip() for x in m.group(1).split(",")) if m else None
-    ctx.fact("alias operands tracked by Program.GC", got, EXPECT_GC_ALIAS)
-    body = vlib.strip_go_comments(gc or "")
-    ctx.fact("Program.GC: liveness of an input is closed over direct and indirect aliases (aliasLive recursion)",
-             [bool(re.search(r"aliasLive = func\(id ValueID\) bool \{\s*for _, alias := range aliases\[id\] \{\s*"
-                             r"if set\.Bit\(int\(alias\.ID\)\) == 1 \|\| aliasLive\(alias\.ID\) \{\s*return true", body)),
-              bool(re.search(r"if set\.Bit\(int\(in\.ID\)\) == 0 \{\s*if !aliasLive\(in\.ID\) \{", body))],
-             [True, True])
+    """One SEMANTIC fact (a constant the harness replicates) and advisory
+    source-text expectations.  Every advisory's semantic content is decided by
+    a correspondence or by the oracle of this check (named in its text); a
+    drift only widens the search."""
+    pkg = "\n".join(vlib.strip_go_comments(vlib.repo_file("compiler/ssa/" + f))
+                    for f in ("wire_allocator.go", "program.go", "streamer.go"))
     wa = vlib.strip_go_comments(vlib.repo_file("compiler/ssa/wire_allocator.go"))
-    m = re.search(r"hash\s+\[(\d+)\]\*allocByValue", wa)
-    ctx.fact("number of hash buckets of WireAllocator (harness: numBuckets)", int(m.group(1)) if m else None, 10240)
+    m = re.search(r"\bhash\s+\[([^\]]+)\]\*allocByValue", wa)
+    ctx.fact("number of hash buckets of WireAllocator (replicated by the harness as numBuckets; named constants resolved)",
+             resolve_int(pkg, m.group(1)) if m else None, 10240)
+
+    gc = vlib.go_func_body("compiler/ssa/program.go", r"\(prog \*Program\) GC\(")
+    gcb = vlib.strip_go_comments(gc or "")
+    m = re.search(r"aliases := make\(.*?switch step\.Instr\.Op \{\s*case\s+([A-Za-z, \n\t]+):", gcb, flags=re.S)
+    got = sorted(x.strip() for x in m.group(1).split(",")) if m else None
+    ctx.advise("alias operands tracked by Program.GC [decided by: GC-pass correspondence + oracle]", got, EXPECT_GC_ALIAS)
+    ctx.advise("Program.GC starts with defineBeforeUse [decided by: GC correspondence on scrambled step lists + "
+               "definition-before-use check of every step list]",
+               bool(re.search(r"func \(prog \*Program\) GC\(\) \{\s*prog\.defineBeforeUse\(\)", gcb)), True)
+    ctx.advise("Program.GC: liveness closed over direct and indirect aliases (aliasLive recursion) [decided by: "
+               "GC-pass correspondence + oracle early-free analysis]",
+               [bool(re.search(r"aliasLive = func\(id ValueID\) bool \{\s*for _, alias := range aliases\[id\] \{\s*"
+                               r"if set\.Bit\(int\(alias\.ID\)\) == 1 \|\| aliasLive\(alias\.ID\) \{\s*return true", gcb)),
+                bool(re.search(r"if set\.Bit\(int\(in\.ID\)\) == 0 \{\s*if !aliasLive\(in\.ID\) \{", gcb))],
+               [True, True])
     rm = vlib.go_func_body("compiler/ssa/wire_allocator.go", r"\(walloc \*WireAllocator\) remove\(")
-    ctx.fact("WireAllocator.remove walks the chain and unlinks the header whose key equals the value",
-             bool(rm) and bool(re.search(r"for ptr := &walloc\.hash\[hash\]; \*ptr != nil; ptr = &\(\*ptr\)\.next \{\s*"
-                                         r"if \(\*ptr\)\.key\.Equal\(&v\) \{\s*ret := \*ptr\s*\*ptr = \(\*ptr\)\.next\s*return ret",
-                                         vlib.strip_go_comments(rm))), True)
+    ctx.advise("WireAllocator.remove walks the chain and unlinks the header whose key equals the value [decided by: "
+               "allocator-trace correspondence + oracle on bucket-collision programs]",
+               bool(rm) and bool(re.search(r"for ptr := &walloc\.hash\[hash\]; \*ptr != nil; ptr = &\(\*ptr\)\.next \{\s*"
+                                           r"if \(\*ptr\)\.key\.Equal\(&v\) \{\s*ret := \*ptr\s*\*ptr = \(\*ptr\)\.next\s*return ret",
+                                           vlib.strip_go_comments(rm))), True)
     lk = vlib.go_func_body("compiler/ssa/wire_allocator.go", r"\(walloc \*WireAllocator\) lookup\(")
-    ctx.fact("WireAllocator.lookup moves a header to the bucket head only when found at depth > 2",
-             bool(lk) and "if count > 2 {" in lk and "walloc.hash[hash] = alloc" in lk, True)
+    ctx.advise("WireAllocator.lookup moves a header to the bucket head only when found at depth > 2 [not observable on "
+               "the wire; model detail]", bool(lk) and "if count > 2 {" in lk and "walloc.hash[hash] = alloc" in lk, True)
     st = vlib.go_func_body("compiler/ssa/streamer.go", r"\(prog \*Program\) Stream\(")
-    ctx.fact("operands special-cased (not garbled via circuitGenerators) by Program.Stream",
-             case_labels(st, r"switch instr\.Op \{"), EXPECT_STREAM_CASES)
-    ctx.fact("Program.Stream re-widens an *mpa.Int constant used at a second width from its own value and size",
-             bool(st) and "in.ConstValue.(*mpa.Int); ok && in.Const" in st and "own := types.Size(mi.TypeSize())" in st
-             and "if src < own && in.Bit(src) {" in st, True)
-    gg = vlib.go_func_body("circuit/stream_garble.go", r"\(stream \*Streaming\) garbleGate\(")
-    flags = re.findall(r"op \|= (0b[01]{8})", vlib.strip_go_comments(gg or ""))
-    ctx.fact("op byte flags of Streaming.garbleGate (aTmp, bTmp, cTmp, 16-bit ids)", flags, EXPECT_FLAGS)
-    ctx.fact("16-bit id encoding chosen iff all three ids <= 0xffff",
-             bool(gg) and "aIndex <= 0xffff && bIndex <= 0xffff && cIndex <= 0xffff" in gg, True)
+    ctx.advise("operands special-cased (not garbled via circuitGenerators) by Program.Stream [decided by: allocator-trace "
+               "correspondence: return wire ids and per-circuit max ids]",
+               case_labels(st, r"switch instr\.Op \{"), EXPECT_STREAM_CASES)
+    ctx.advise("Program.Stream re-widens an *mpa.Int constant used at a second width from its own value and size "
+               "[decided by: allocator-trace correspondence + oracle]",
+               bool(st) and "in.ConstValue.(*mpa.Int); ok && in.Const" in st and "own := types.Size(mi.TypeSize())" in st
+               and "if src < own && in.Bit(src) {" in st, True)
+    sg = vlib.strip_go_comments(vlib.repo_file("circuit/stream_garble.go"))
+    gg = vlib.strip_go_comments(vlib.go_func_body("circuit/stream_garble.go", r"\(stream \*Streaming\) garbleGate\(") or "")
+    flags = [resolve_int(sg, t) for t in re.findall(r"op \|= ([A-Za-z_0-9]+)", gg)]
+    ctx.advise("op byte flags of Streaming.garbleGate (aTmp, bTmp, cTmp, 16-bit ids), named constants resolved "
+               "[decided by: byte-exact gate-record correspondence]", flags, [0x80, 0x40, 0x20, 0x10])
+    m = re.search(r"aIndex <= (\w+) &&\s*bIndex <= (\w+) &&\s*cIndex <= (\w+)", gg)
+    ctx.advise("16-bit id encoding chosen iff all three ids <= 0xffff, named constants resolved [decided by: byte-exact "
+               "gate-record correspondence incl. ids at 0xfff0..0x1000f]",
+               [resolve_int(sg, t) for t in m.groups()] if m else None, [0xffff, 0xffff, 0xffff])
     ga = vlib.go_func_body("circuit/stream_garble.go", r"\(stream \*Streaming\) Garble\(")
-    ctx.fact("Streaming.Garble uses the stream-wide tweak counter (&stream.id)",
-             bool(ga) and "&stream.id" in ga and "var id uint32" not in ga, True)
+    ctx.advise("Streaming.Garble uses the stream-wide tweak counter (&stream.id) [decided by: byte-exact correspondence "
+               "over several Garble calls on one Streaming object]",
+               bool(ga) and "&stream.id" in ga and "var id uint32" not in ga, True)
     ev = vlib.go_func_body("circuit/stream_evaluator.go", r"StreamEvaluator\(")
     body = vlib.strip_go_comments(ev or "")
     pos_id = body.find("var id uint32")
     pos_loop = body.find("loop:")
-    ctx.fact("StreamEvaluator declares its tweak counter once, before the main loop",
-             body.count("var id uint32") == 1 and 0 < pos_id < pos_loop, True)
-    ctx.fact("StreamEvaluator flag masks", re.findall(r"gop&(0b[01]{8}) != 0", body), EXPECT_FLAGS)
+    ctx.advise("StreamEvaluator declares its tweak counter once, before the main loop [decided by: oracle: a garbler / "
+               "evaluator counter mismatch fails every multi-instruction session]",
+               body.count("var id uint32") == 1 and 0 < pos_id < pos_loop, True)
+    se = vlib.strip_go_comments(vlib.repo_file("circuit/stream_evaluator.go")) + sg
+    ctx.advise("StreamEvaluator flag masks, named constants resolved [decided by: oracle sessions]",
+               [resolve_int(se, t) for t in re.findall(r"gop&([A-Za-z_0-9]+) != 0", body)], [0x80, 0x40, 0x20, 0x10])
 
 
 def run(ctx):
@@ -119,7 +163,8 @@ def run(ctx):
         for s in seeds:
             ops, out, meta = ctx.run_hx("oracle", n_or, seed=s, timeout=1500)
             ctx.absorb_meta(meta)
-            ctx.correspond("Program.GC pass + wire allocator trace (seed %d)" % s, ops, out)
+            ctx.correspond("Program.GC (defineBeforeUse + gc insertion, also on scrambled step lists) + wire allocator "
+                           "trace (seed %d)" % s, ops, out)
             for line in open(ops, errors="replace"):
                 if not line.startswith("c05 skip"):
                     ctx.distinct.add(hashlib.sha1(line.encode()).digest())
@@ -128,7 +173,7 @@ def run(ctx):
             ctx.correspond("Streaming.Garble bytes (seed %d)" % s, ops, out)
             for line in open(ops, errors="replace"):
                 ctx.distinct.add(hashlib.sha1(line.encode()).digest())
-        if ctx.broken and not ctx.fails:
+        if ctx.widen:
             for s in range(ctx.seed + 7000, ctx.seed + 7003):
                 ops, out, meta = ctx.run_hx("oracle", 2000, seed=s, tag="-widen", timeout=1500,
                                             extra_args=["-extra", "big=30,large"])
@@ -158,6 +203,9 @@ def run(ctx):
                    str({k: v for k, v in c.items() if "bucket" in k or "chain" in k}))
         if not quick:
             ctx.oblige("large real examples (sort, aes) ran in streaming mode", c.get("class_large", 0) >= 2, str(c))
+        ctx.oblige("definition-before-use was evaluated on every compiled step list (early-return class ran)",
+                   c.get("ssa_def_before_use_holds", 0) + c.get("ssa_use_before_def_programs", 0) == c.get("compiled", -1)
+                   and c.get("feat_early_return", 0) > 0 and c.get("gcop_scrambled", 0) > 0, str(c))
         want_ops = ["amov", "concat", "lshift", "rshift", "srshift", "slice", "mov", "smov", "phi", "index"]
         missing = [o for o in want_ops if c.get("ssaop_" + o, 0) == 0]
         ctx.oblige("every rewiring operand (and phi, index) occurred in the streamed programs", not missing, str(missing))
@@ -168,7 +216,8 @@ def run(ctx):
         "arguments instantiated from the input sizes, garbler argument [>1024]uint64 so that wire ids exceed 65535, a boundary sweep around id 65536, and small "
         "programs with ONE instruction circuit of more than 65536 wires - wide division/modulo/multiplication - so that "
         "temporary wire indexes exceed 65535 while persistent ids are small; a collide class that renames identifiers - "
-        "names searched with the real Value.HashCode - so that 2..4 simultaneously live values share a bucket of the "
+        "an early class with pending phis, if/else with an early return in one branch and a continuation reading the "
+        "results; names searched with the real Value.HashCode - so that 2..4 simultaneously live values share a bucket of the "
         "allocator's hash table; in the thorough tier two large library programs: sort, aes) "
         "with scalar/array/struct arguments, 1-4 results incl. arrays, random inputs, ideal and Chou-Orlandi OT, seeded "
         "read fragmentation; every program's SSA is analysed per bit for id ranges freed while still pointed at. "
